@@ -15,8 +15,11 @@ def run(ctx, prog, facts, tier):
     rules_geom.check_constants(ctx, prog, which=['TOP_ROW_MASK', 'BOTTOM_ROW_MASK', 'P1_OBJECTIVE_MASK', 'P2_OBJECTIVE_MASK'],
                                rule='C04.F')
     rules_c04.check_terminal(ctx, prog, I)
+    # fifth condition: 'the player to move has no legal step' is has_move(), which must agree with the offered list
+    from . import rules_rep
+    rules_rep.check_has_move(ctx, prog)
     ctx.exhaustive = True
-    ctx.assumptions += ['NOT decided: correctness of has_move as "no legal step" (C07/C01)',
+    ctx.assumptions += ['has_move is shown equivalent to "the offered list is non-empty" (C07.2 clauses); that the list itself is the legal set is C01',
                         'atoms are identified by the dependency footprint and must-literals of the tested bitboard']
     return ('Decision tree of is_terminal extracted by abstract interpretation; the four start-of-turn conditions are '
             'identified by footprint and all 16 x 2 combinations are evaluated against the official order; goal ranks '
